@@ -17,7 +17,9 @@ RULE = ("drivers: ordered pairs of placements (bit range of a 4-bit signal x mod
         "arrays; every slice of a choice between values of different widths (Mux / Array.as_value) x every range of the "
         "narrower value driven from another module or domain; every slice / part-select window of a concatenation (starting "
         "inside either part, crossing the boundary) x a second driver of the free / touched bits of the same signals; "
-        "zero-width targets. "
+        "zero-width targets (a driver without bits drives nothing, also as the signal's only driver: every port direction x "
+        "sole bit-less driver in comb / clocked domain / submodule / If / through Cat, part-select, cast, array element, "
+        "choice; two bit-less drivers; next to Instance / read-port / buffer outputs; mixed with real bits). "
         "cycles: seeded dependency rings over <= 6 signal bits from slices, Cat, ~ & | ^, Mux, If conditions and one "
         "word-level operator (+ - * << >> < ==), half of them spread over a 3-level module hierarchy, each in a cyclic "
         "variant and with one edge cut (or moved to a sync domain); per CELL KIND (every unary/binary Operator incl. "
@@ -49,7 +51,6 @@ DOMS = ["comb", "a", "b"]
 FORMS = ["slice", "part", "part0", "cat", "arr", "cast"]
 RANGES = [(lo, hi) for lo in range(4) for hi in range(lo + 1, 5)]
 S2 = "S2-early-conflict-part-overapprox"
-F_ZERO = "C06-zero-width-driver-vs-input-port"
 
 
 # ------------------------------------------------------------------ target grammar (JSON lists)
@@ -504,12 +505,43 @@ def gen_drv(tier, rng):
                                "sub": [] if where == 1 else [{"st": second, "sub": []}]}
                         cases.append({"k": "drv", "tag": "choice-mixed", "sigw": {"0": 4, "1": wa, "2": wb},
                                       "ports": [], "top": top})
+    # zero-width targets (all in the QUICK tier): a driver that assigns no bit is no source of any bit, also when it is
+    # the signal's ONLY driver (formerly widened to the whole signal by emit_drivers: finding
+    # C06-zero-width-driver-vs-input-port, repaired in the repo) -- every port direction x {sole bit-less driver in comb /
+    # a clocked domain / a submodule / under If / through Cat, a part-select, a cast, an array element; two bit-less
+    # drivers; next to an Instance output; next to real bits of the same or another driver (still a conflict with Input)}
+    z0 = lambda a, b=None: ["sl", ["sig", 0], a, a if b is None else b]
     for d in "nio":
-        cases.append({"k": "drv", "tag": "zero-width", "sigw": {"0": 4}, "ports": [[0, d]],
-                      "top": {"st": [["comb", ["sl", ["sig", 0], 1, 1], 0]], "sub": []}})
-        cases.append({"k": "drv", "tag": "zero-width", "sigw": {"0": 4}, "ports": [[0, d]],
-                      "top": {"st": [["comb", ["sl", ["sig", 0], 1, 1], 0]],
-                              "sub": [{"st": [["a", ["sl", ["sig", 0], 2, 4], 0]], "sub": []}]}})
+        zw = []
+        for dom in DOMS:
+            for wrap in (0, 1):
+                for lo in (0, 1, 4):
+                    zw.append(({"st": [[dom, z0(lo), wrap]], "sub": []}, {"0": 4}, [[0, d]]))
+            zw.append(({"st": [], "sub": [{"st": [], "sub": [{"st": [[dom, z0(2), 0]], "sub": []}]}]}, {"0": 4}, [[0, d]]))
+            zw.append(({"st": [[dom, z0(1), 0], [dom, z0(3), 0]], "sub": []}, {"0": 4}, [[0, d]]))
+            # bit-less + real bits in the SAME driver: widened as before, collides with an Input port
+            zw.append(({"st": [[dom, z0(1), 0], [dom, z0(0, 2), 0]], "sub": []}, {"0": 4}, [[0, d]]))
+            # bit-less driver + a real driver elsewhere / two bit-less drivers (different domain, different module)
+            zw.append(({"st": [["comb", z0(1), 0]], "sub": [{"st": [[dom, z0(2, 4), 0]], "sub": []}]}, {"0": 4}, [[0, d]]))
+            zw.append(({"st": [["comb", z0(1), 0]], "sub": [{"st": [[dom, z0(3), 0]], "sub": []}]}, {"0": 4}, [[0, d]]))
+            zw.append(({"st": [["comb", z0(1), 0], ["a", z0(3), 0], ["b", z0(1), 0]], "sub": []}, {"0": 4}, [[0, d]]))
+        for form in (["cat", [z0(2), ["sl", ["sig", 1], 0, 0]]], ["part", ["sig", 0], 1, 0, 1], ["part", z0(1, 3), 2, 0, 1],
+                     ["cast", z0(3), "u"], ["arr", [z0(1), ["sl", ["sig", 1], 2, 2]]], ["cat", []],
+                     ["sl", ["cat", [["sig", 0], ["sig", 1]]], 4, 4], ["sw", [["sig", 0], ["sig", 1]], 2, 2],
+                     ["mux", [["sig", 0], ["sig", 1]], 1, 1]):
+            for d1 in "ni":
+                zw.append(({"st": [["comb", form, 0]], "sub": []}, {"0": 4, "1": 2}, [[0, d], [1, d1]]))
+        for kind in ("inst", "mem", "iob"):
+            for olo, ohi in ((0, 2), (0, 4), (3, 4)):
+                zw.append(({"st": [["comb", z0(2), 0]], "sub": [{"out": kind, "t": [z0(olo, ohi)]}]}, {"0": 4}, [[0, d]]))
+                zw.append(({"st": [], "sub": [{"out": kind, "t": [z0(olo, ohi)]}, {"st": [["a", z0(2), 0]], "sub": []}]},
+                           {"0": 4}, [[0, d]]))
+        # a signal of width 0 assigned as a whole; 1-bit signal
+        zw.append(({"st": [["comb", ["sig", 0], 0]], "sub": []}, {"0": 0}, [[0, d]]))
+        zw.append(({"st": [["a", ["sl", ["sig", 0], 1, 1], 0]], "sub": []}, {"0": 1}, [[0, d]]))
+        for i, (top, sigw, ports) in enumerate(zw):
+            cases.append({"k": "drv", "tag": "zero-width", "sigw": sigw, "ports": ports, "top": top,
+                          **({"via": "rtlil"} if i % 3 == 0 else {})})
     return cases
 
 
@@ -1367,25 +1399,6 @@ def _has_part(f):
     return any("'part'" in repr(t) for _d, t, _w in f["st"]) or any(_has_part(s) for s in f["sub"])
 
 
-def _zero_width_sole_driver(c):
-    """exactly the finding's class: signal 0 is an Input port, its only logic is zero-width targets in ONE (module,
-    domain), nothing else drives it (the faithful model then reports connect() on bit 0 of signal 0)"""
-    keys, ok = set(), [True]
-
-    def walk(f, path):
-        if "out" in f:
-            ok[0] = False
-            return
-        for d, t, _w in f["st"]:
-            if tlen(t, c["sigw"]) != 0:
-                ok[0] = False
-            keys.add((path, d))
-        for i, s_ in enumerate(f["sub"]):
-            walk(s_, path + (i,))
-    walk(c["top"], ())
-    return ok[0] and len(keys) == 1 and any(s_ == 0 and d == "i" for s_, d in c["ports"])
-
-
 def known_finding(c, obs, model):
     if c["k"] == "drv":
         # faithful model agrees with the code everywhere but the SPEC flag (last element): rejected although
@@ -1393,8 +1406,6 @@ def known_finding(c, obs, model):
         if obs[:-1] == model[:-1] and obs[-1] == 1 and model[-1] == 0:
             if obs[0] == 1 and _has_part(c["top"]):
                 return S2
-            if obs[0] == 0 and model[:5] == [0, 1, 1, 0, 0] and _zero_width_sole_driver(c):
-                return F_ZERO
         return None
     return None
 
